@@ -123,6 +123,23 @@ pub fn c09_oracle(t: &TextTree, text: &str) -> Outcome {
                 if ids != units {
                     o.fail(Failure::new("units-differ", format!("{}: token {} {:?} (word {:#x}) is split into words {:x?}, the dictionary declares {:x?}", ctx, i, c.surface, c.word_id, ids, units)));
                 }
+                // when the declared units concatenate to the word's key, every unit covers exactly
+                // the text of its own key
+                let unit_keys: Vec<Option<String>> = units.iter().map(|u| row_of(w, *u).map(|(_, r)| r.surface.clone())).collect();
+                let parent_key = row.map(|(_, r)| r.surface.clone()).unwrap_or_default();
+                // (only for tokens whose original text is not rewritten by normalisation: inside an
+                // expansion such as ㍿ -> 株式会社 a unit boundary has no position of its own in the original)
+                let untouched = normalized_text(dict, &c.surface).map(|n| n == c.surface).unwrap_or(false);
+                if untouched && unit_keys.iter().all(|k| k.is_some()) && unit_keys.iter().map(|k| k.clone().unwrap()).collect::<String>() == parent_key {
+                    for (p, k) in part.iter().zip(unit_keys.iter()) {
+                        let k = k.as_ref().unwrap();
+                        if let Ok(n) = normalized_text(dict, &p.surface) {
+                            if &n != k {
+                                o.fail(Failure::new("unit-range-differs", format!("{}: unit {:#x} of token {} {:?} covers {:?} (normalised {:?}), its key is {:?}", ctx, p.word_id, i, c.surface, p.surface, n, k)));
+                            }
+                        }
+                    }
+                }
                 if part[0].begin != c.begin || part[part.len() - 1].end != c.end || part.windows(2).any(|p| p[0].end != p[1].begin) {
                     o.fail(Failure::new("units-do-not-tile-parent", format!("{}: token {} {:?} {}..{} is split into ranges {:?}", ctx, i, c.surface, c.begin, c.end, part.iter().map(|t| (t.begin, t.end)).collect::<Vec<_>>())));
                 }
